@@ -55,6 +55,7 @@ T_C16_FirstTime   == [][NotReset => C16_FirstTime_Step]_tvars
 T_C16_Responses   == [][NotReset => C16_Responses_Step]_tvars
 T_C16_ManagerOnly == [][NotReset => C16_ManagerOnly_Step]_tvars
 T_C16_Footprint   == [][NotReset => C16_Footprint_Step]_tvars
+T_C16_Effect      == [][NotReset => C16_Effect_Step]_tvars
 
 \* the data part of C08: only the manager registers to a non-public resolver
 T_C08_ResolverManager == T_C16_ManagerOnly
